@@ -701,15 +701,19 @@ func (h *hsRunner) serveProxy(i int, sc *SimConn) {
 		h.serveSocks(i, c, sc, log)
 		return
 	}
-	br := bufio.NewReader(c)
+	ht := &headTee{r: c}
+	br := bufio.NewReader(ht)
 	req, err := http.ReadRequest(br)
+	ht.stop = true
 	if err != nil {
 		log.FirstBytes = append(log.FirstBytes, log.RawFirst...)
 		c.Close()
 		return
 	}
 	log.Connects++
-	log.Targets = append(log.Targets, req.Method+" "+req.RequestURI+" host="+req.Host)
+	// net/http replaces Request.Host by the authority of a CONNECT target; the Host header field
+	// as the client wrote it is taken from the raw head
+	log.Targets = append(log.Targets, req.Method+" "+req.RequestURI+" host="+rawHostField(ht.head, req.Host))
 	log.Auth = append(log.Auth, req.Header.Get("Proxy-Authorization"))
 	switch p.Reply {
 	case "200":
@@ -751,6 +755,38 @@ func (h *hsRunner) serveProxy(i int, sc *SimConn) {
 		return
 	}
 	h.tunnel(c, br, req.RequestURI, log)
+}
+
+// headTee keeps a copy of the request head as it came off the connection.
+type headTee struct {
+	r    io.Reader
+	head []byte
+	stop bool
+}
+
+func (t *headTee) Read(p []byte) (int, error) {
+	n, err := t.r.Read(p)
+	if !t.stop && len(t.head) < 1<<16 {
+		t.head = append(t.head, p[:n]...)
+	}
+	return n, err
+}
+
+// rawHostField returns the value of the first Host header field of a raw
+// request head (def if there is none).
+func rawHostField(head []byte, def string) string {
+	if i := bytes.Index(head, []byte("\r\n\r\n")); i >= 0 {
+		head = head[:i]
+	}
+	for k, line := range strings.Split(string(head), "\r\n") {
+		if k == 0 {
+			continue
+		}
+		if i := strings.IndexByte(line, ':'); i > 0 && strings.EqualFold(strings.TrimSpace(line[:i]), "Host") {
+			return strings.TrimSpace(line[i+1:])
+		}
+	}
+	return def
 }
 
 // tunnel relays bytes between the client and the target node.
